@@ -3771,3 +3771,147 @@ func ruleIDX12(c *Ctx) []Ob {
 	}
 	return o.list
 }
+
+// ---------------------------------------------------------------- COD8
+
+// COD8: on the way back from a document to a Go value, the walk that looks for structs
+// behind a target type strips EVERY level of pointers before it asks for the kind, as
+// the writer follows pointer chains of any depth: the type whose Kind() is compared
+// with reflect.Struct comes out of a helper that strips pointers in a loop (or the walk
+// has a case for pointers that goes on with Elem()). A helper that strips one level
+// (`if rt.Kind() == reflect.Ptr { return rt.Elem() }` - enough for embedded fields, which
+// are T or *T) leaves a field of type **T unrenamed: its clover-named entries are
+// silently dropped by encoding/json.
+func ruleCOD8(c *Ctx) []Ob {
+	o := newObs(c, "COD8")
+	conv := c.lookupFunc("internal", "Convert")
+	if conv == nil {
+		o.add(UNDECIDED, "model", "-", "internal.Convert not found")
+		return softenUndecided(o.list)
+	}
+	isTypeElem := func(ci ssa.CallInstruction) bool {
+		cc := ci.Common()
+		if cc.IsInvoke() {
+			return cc.Method != nil && cc.Method.Name() == "Elem" && namedIs(cc.Value.Type(), "reflect", "Type")
+		}
+		return false
+	}
+	// stripsAll: g contains a loop in which a reflect.Type's Elem() is adopted (flows into a phi)
+	stripsAll := func(g *ssa.Function) bool {
+		found := false
+		allCalls(g, func(ci ssa.CallInstruction) {
+			if !isTypeElem(ci) || !c.inLoop(ci.Block()) {
+				return
+			}
+			if v, ok := ci.(ssa.Value); ok {
+				for _, r := range realReferrers(v) {
+					if _, isPhi := r.(*ssa.Phi); isPhi {
+						found = true
+					}
+				}
+			}
+		})
+		return found
+	}
+	kStruct, okK := c.reflectKind("Struct")
+	kPtr, okP := c.reflectKind("Ptr")
+	if !okK || !okP {
+		o.add(UNDECIDED, "model", "-", "reflect.Struct / reflect.Ptr not found")
+		return softenUndecided(o.list)
+	}
+	n := 0
+	var fns []*ssa.Function
+	for f := range c.staticReach(conv) {
+		if c.pkgRel(f) == "internal" && f.Parent() == nil {
+			fns = append(fns, f)
+		}
+	}
+	sort.Slice(fns, func(i, j int) bool { return c.fname(fns[i]) < c.fname(fns[j]) })
+	for _, fn := range fns {
+		// the types whose kind is compared with Struct in fn
+		var tested []ssa.Value
+		hasPtrCase := false
+		hasContainerCase := false // the per-type walk: it tells structs, slices and maps apart
+		for _, b := range fn.Blocks {
+			for _, in := range b.Instrs {
+				bo, ok := in.(*ssa.BinOp)
+				if !ok || (bo.Op != token.EQL && bo.Op != token.NEQ) {
+					continue
+				}
+				for _, pair := range [][2]ssa.Value{{bo.X, bo.Y}, {bo.Y, bo.X}} {
+					cl, isCall := pair[0].(*ssa.Call)
+					if !isCall || !cl.Call.IsInvoke() || cl.Call.Method == nil || cl.Call.Method.Name() != "Kind" || !namedIs(cl.Call.Value.Type(), "reflect", "Type") {
+						continue
+					}
+					k, isK := constInt(pair[1])
+					if !isK {
+						continue
+					}
+					if k == kStruct {
+						tested = append(tested, cl.Call.Value)
+					}
+					if k == kPtr {
+						hasPtrCase = true
+					}
+					if ks, ok := c.reflectKind("Slice"); ok && k == ks {
+						hasContainerCase = true
+					}
+					if km, ok := c.reflectKind("Map"); ok && k == km {
+						hasContainerCase = true
+					}
+				}
+			}
+		}
+		// only walkers that go on into containers (they have a map of field values to rename)
+		takesFields := false
+		for _, p := range fn.Params {
+			if _, isI := p.Type().Underlying().(*types.Interface); isI {
+				takesFields = true
+			}
+		}
+		if len(tested) == 0 || !takesFields || !hasContainerCase {
+			continue
+		}
+		n++
+		key := c.fname(fn) + "/every level of pointers is stripped before the kind is asked"
+		okAll := true
+		for _, tv := range tested {
+			good := false
+			for _, og := range origins(tv) {
+				switch x := og.(type) {
+				case *ssa.Call:
+					if g := staticCallee(x); g != nil && c.IsLib(c.declared(g)) && stripsAll(c.declared(g)) {
+						good = true
+					}
+				case *ssa.Phi:
+					good = true
+				}
+			}
+			if stripsAll(fn) || (hasPtrCase && fn != nil) {
+				// the walker strips in a loop of its own, or has a case for pointers
+				good = good || stripsAll(fn)
+				if hasPtrCase {
+					recurses := false
+					allCalls(fn, func(ci ssa.CallInstruction) {
+						if g := staticCallee(ci); g != nil && c.declared(g) == fn {
+							recurses = true
+						}
+					})
+					good = good || recurses
+				}
+			}
+			if !good {
+				okAll = false
+			}
+		}
+		if okAll {
+			o.add(OK, key, relPath(c, fn.Pos()), "the type comes out of a helper that strips pointers in a loop")
+		} else {
+			o.add(VIOLATED, key, relPath(c, fn.Pos()), "the walk asks for the kind of a type from which at most one level of pointers has been stripped: a field declared **T (the writer follows pointer chains of any depth) keeps a pointer kind, is not looked into, and its clover-named entries reach encoding/json unrenamed - Work **Address with Zip tagged clover:\"zip_code\" json:\"zip\" comes back with Zip = 0")
+		}
+	}
+	if n == 0 {
+		o.add(INFO, "rename walk", "-", "no function reached from Convert compares a reflect.Type's kind with reflect.Struct")
+	}
+	return o.list
+}
